@@ -27,12 +27,17 @@ def definition():
     xdoc.add_container(d, "ROOT", [("p", nm) for nm, _ in HDR], abstract=True)
     xdoc.add_container(d, "FIX", [("p", "A"), ("p", "B")], base="ROOT", crit_list=[cmp("APID", "==", 1)])
     xdoc.add_container(d, "VAR", [("p", "REST")], base="ROOT", crit_list=[cmp("APID", "==", 2)])
+    # APID 5: recognised only when the selector field is 0 (abstract intermediate container): the same APID is sometimes
+    # recognised and sometimes not
+    xdoc.add_param(d, "SELF", uint(8))
+    xdoc.add_container(d, "SELC", [("p", "SELF")], base="ROOT", crit_list=[cmp("APID", "==", 5)], abstract=True)
+    xdoc.add_container(d, "SELOK", [("p", "B")], base="SELC", crit_list=[cmp("SELF", "==", 0)])
     xdoc.add_container(d, "AMB1", [("p", "M"), ("p", "N")], base="ROOT", crit_list=[cmp("APID", "==", 3)])
     xdoc.add_container(d, "AMB2", [("p", "A")], base="ROOT", crit_list=[cmp("APID", ">=", 3), cmp("APID", "<", 5)])
     return d
 
 
-CLASSES = {"exact": (1, 2), "inexact_long": (1, 3), "inexact_short": (1, 1), "var": (2, None), "ambiguous": (3, 2), "only_amb2": (4, 1),
+CLASSES = {"sel_ok": (5, "sel0"), "sel_unrec": (5, "sel1"), "exact": (1, 2), "inexact_long": (1, 3), "inexact_short": (1, 1), "var": (2, None), "ambiguous": (3, 2), "only_amb2": (4, 1),
            "deadend": (9, 2)}
 
 
@@ -41,8 +46,12 @@ def make_pool(rng, per_class):
     seq = 0
     for cname, (apid, n) in CLASSES.items():
         for _ in range(per_class):
-            n_ = n if n is not None else rng.randint(1, 9)
             seq += 1
+            if isinstance(n, str):
+                body = bytes([0 if n == "sel0" else rng.randint(1, 255), rng.getrandbits(8)])
+                pool.append({"cls": cname, "bytes": list(defs.mk_packet(body, apid=apid, seq=seq))})
+                continue
+            n_ = n if n is not None else rng.randint(1, 9)
             pool.append({"cls": cname, "bytes": list(defs.mk_packet(bytes(rng.getrandbits(8) for _ in range(n_)), apid=apid, seq=seq))})
     return pool
 
